@@ -20,6 +20,7 @@ structure Step where
   outs : List Nat          -- `step.get_uuids()` in iteration order
   req  : List Nat          -- `step.required_uuids`
   kind : Kind := .fg
+  result : Bool := true    -- FG step whose FeatureSet has initially requested features (its table is a result)
   deriving Repr, Inhabited
 
 abbrev Plan := List Step
@@ -82,7 +83,7 @@ def stepEv (p : Plan) (s : St) : Ev → St
           if i ∈ s.done then
             let (f, r) := markFinished st.outs s.finished s.running
             { s with finished := f, running := r, collected := i :: s.collected,
-                     pending := if st.kind == .fg then s.pending ++ [i] else s.pending }
+                     pending := if st.kind == .fg && st.result then s.pending ++ [i] else s.pending }
           else s
         | some false =>
           if canRun st.req st.outs s.finished s.running then
@@ -96,14 +97,24 @@ def stepEv (p : Plan) (s : St) : Ev → St
     if i ∈ s.started ∧ i ∉ s.done ∧ i ∉ s.failed then { s with failed := i :: s.failed, err := some i } else s
   | .loopHead =>
     if halted s then s else
-    -- compute_stream drains the result collection at the end of every pass, i.e. just before the next loop head
-    let s := { s with yielded := s.yielded ++ s.pending, pending := [] }
+    -- compute_stream drains the result collection (`popitem`: last in first out) at the end of every pass, i.e. just
+    -- before the next loop head
+    let s := { s with yielded := s.yielded ++ s.pending.reverse, pending := [] }
     -- `while to_finish_ids != finished_ids or len(finished_ids) == 0` is tested first ...
     if (allOuts p).all (· ∈ s.finished) ∧ s.finished ≠ [] then { s with returned := true }
     -- ... then the error check inside the loop body
     else match s.err with
       | some e => { s with raised := some e }
       | none => s
+
+/-- does step i contribute a table to the results -/
+def hasResult (p : Plan) (i : Nat) : Bool :=
+  match p[i]? with
+  | some st => st.kind == .fg && st.result
+  | none => false
+
+/-- batch: `list(result_data_collection.values())` - insertion order = order of collection -/
+def results (p : Plan) (s : St) : List Nat := (s.collected.filter (hasResult p)).reverse
 
 def run (p : Plan) (s : St) (evs : List Ev) : St := evs.foldl (stepEv p) s
 
